@@ -11,6 +11,25 @@ import (
 	rt "github.com/buildbarn/bb-remote-execution/internal/verifrt"
 )
 
+// verifC14_lock is a mutex whose acquisition attempts are scheduling points of
+// the harness (so that the schedules the engine explores can be forced in a
+// native replay as well).
+type verifC14_lock struct {
+	m sync.Mutex
+}
+
+func (l *verifC14_lock) Lock() {
+	rt.Yield()
+	l.m.Lock()
+}
+
+func (l *verifC14_lock) TryLock() bool {
+	rt.Yield()
+	return l.m.TryLock()
+}
+
+func (l *verifC14_lock) Unlock() { l.m.Unlock() }
+
 func verifHarness_C14_LockPile() {
 	threads, nlocks := 2, 2
 	if rt.Tier() > 0 {
@@ -19,11 +38,10 @@ func verifHarness_C14_LockPile() {
 	rt.Bound("threads", threads)
 	rt.Bound("mutexes", nlocks)
 	rt.MustCover("pile:first", "pile:second-contended", "pile:recursive")
-	rt.PreemptAtSync()
-	locks := make([]*sync.Mutex, nlocks)
+	locks := make([]*verifC14_lock, nlocks)
 	owner := make([]int, nlocks) // ghost: which thread believes it holds lock k (0 = nobody)
 	for k := range locks {
-		locks[k] = &sync.Mutex{}
+		locks[k] = &verifC14_lock{}
 	}
 	for t := 1; t <= threads; t++ {
 		t := t
